@@ -9,6 +9,10 @@ TECH = "bounded symbolic execution of the real Go SSA of /repo (own executor, fo
 claimed = {
  "C06": ("5/C06", "The real pipeline behind the YAML front end (initCertificate, parseExtensions, commonExtensionHandler via emulated reflection, readRawString with the real base64 code, BuildCertBody, Sign) is executed with raw payload bytes and critical flags symbolic; order, OID, flag and value of every emitted extension are asserted.",
          "harness starts at the typed v1 structs (no YAML/JSON-schema); ideal signature scheme; fixed clock and serial"),
+ "C07": ("5/C07", "Each structured extension's Builder and constructor are executed with symbolic content (flags, name bytes, octets, path length, OID arcs, qualifier members, key-id bytes) and the emitted value is compared byte for byte with a reference DER encoding written from RFC 5280/6960 (X.690 helpers independent of encoding/asn1).",
+         "content strings of 2 bytes, short lists; hashed key identifiers are part of the C01 harness; the pathLen=0 defect is a recorded known finding"),
+ "C16": ("5/C16", "The admission encoder (raw TLV assembly plus emulated reflection in partialMarshallStruct) is executed level by level for every subset of optional members and every GeneralName kind, and through the v1 configuration layer, against a reference AdmissionSyntax encoder written from Common PKI v2.0.",
+         "compositional coverage of the tree, 2-byte ASCII strings"),
  "C08": ("5/C08", "Merge is executed symbolically against the merge rule of the statement for every profile/certificate list inside the bound; inputs-unchanged frame check. The failure clause for content-less extensions is decided by the C06/C07 builder harnesses once present.",
          "extension doubles instead of the real v1 types; JSON equality via the json.Marshal model (cross-checked against the host encoder on concrete calls)"),
  "C09": ("5/C09", "Validate is executed symbolically against the three-valued oracle transcribed from the statement; attribute types, optional flags and allowOther are solver variables.",
